@@ -20,7 +20,7 @@ use ciphercore_base::inline::inline_ops::InlineConfig;
 use ciphercore_base::mpc::mpc_compiler::IOStatus;
 use serde_json::json;
 
-pub const HEADER: &str = "From Coq Require Import Ring.\nFrom CC Require Import Base.Prelude Base.Scalar Base.Ty Base.Shape Graph.Value Graph.IR Graph.Eval Model.RingEval Model.RingEvalInst Model.MpcCompile.";
+pub const HEADER: &str = "From Coq Require Import Ring.\nFrom CC Require Import Base.Prelude Base.Scalar Base.Ty Base.Shape Graph.Value Graph.IR Graph.Eval Model.RingEval Model.RingEvalInst Model.MpcCompile Model.RingEvalWf.";
 
 /// the compiled graph's input values for an owner vector: Shared inputs are presented as shares
 pub fn present_inputs(input_types: &[Type], owners: &[IOStatus], plain: &[Value], rng: &mut Rng) -> Vec<Value> {
@@ -214,7 +214,14 @@ fn ring_reading_case(p: &Prog, c: &Compiled, owners: &[IOStatus], st: ScalarType
     let n: u64 = p.input_types[0].get_shape().iter().product();
     let w = scalar_size_in_bits(st);
     let lhs = format!("reading_mismatch {} {} {} {} [{}] [{}]", w, n, tape_coq(&c.g, &vals), nodes_coq(&c.g), ins.join("; "), observed.join("; "));
-    out.case("ring-reading", lhs, "(-1)".into(), desc, true);
+    out.case("ring-reading", lhs, "(-1)".into(), desc.clone(), true);
+    // T:wf-ring-graph: the hypotheses of C01_ring_reading_agrees_with_eval (Model/RingEvalWf.v) hold for
+    // this exported compiled graph and this tape, with the same w, n and input list as the case above
+    let (t, nodes, tape) = (ty(&p.input_types[0]), nodes_coq(&c.g), tape_coq(&c.g, &vals));
+    let lhs = format!(
+        "wf_ring_graph {t} {nodes} && wf_ring_tape {t} {nodes} {tape} && eqb (tape_inputs {nodes} {tape}) [{ins}] && (ring_w {t} =? {w}) && (Z.of_nat (ring_n {t}) =? {n})",
+        t = t, nodes = nodes, tape = tape, ins = ins.join("; "), w = w, n = n);
+    out.case("T:wf-ring-graph", lhs, "true".into(), desc, true);
 }
 
 pub fn run(tier: &str, seed: u64, out: &mut Out) {
